@@ -77,7 +77,13 @@ pub fn gen_project(t: &mut Tape) -> Value {
         let desc: Vec<String> = (0..nd).map(|_| DESCS[t.pick(DESCS.len())].to_string()).collect();
         groups.push((NAMES[name_i % NAMES.len()].to_string(), rules, desc)); name_i += 1;
     }
-    let (into, from) = if t.chance(1, 2) { let (i, _) = gen_deromanisers(t); let (f, _) = gen_romanisers(t, &segs); (i, f) } else { (vec![], vec![]) };
+    let (mut into, mut from) = if t.chance(1, 2) { let (i, _) = gen_deromanisers(t); let (f, _) = gen_romanisers(t, &segs); (i, f) } else { (vec![], vec![]) };
+    // alias lines that begin with an escape (`@{acute}Я > a`, `\u{416} > ʃ`) and a word that uses them; romaniser outputs with escapes
+    if t.chance(1, 3) {
+        match t.pick(3) { 0 => { into.push("@{acute}Я > a".to_string()); lines.push(("p\u{301}Яt".to_string(), None)); }
+                          1 => { into.insert(0, "\\u{416}, @{underdot}t > ʃ, ʈ".to_string()); lines.push(("Жa.\u{323}ta".to_string(), Some("escapes".into()))); }
+                          _ => { from.push("a:[+stress] > +@{acute}".to_string()); from.push("ʃ > \\u{448}".to_string()); } }
+    }
     json!({"groups": groups, "words": lines, "into": into, "from": from, "blank_between_rules": t.chance(1, 2)})
 }
 
